@@ -96,6 +96,9 @@ type progResult struct {
 // checkProgram executes one program under every configuration and applies the
 // per-program relations (transparency, never-collapsed).
 func checkProgram(p *pool, c Case, cfgs []string) ([]finding, progResult) {
+	if c.Container == "walk" {
+		p = nil // stack growth is the dimension: always a fresh runtime, i.e. a fresh call stack
+	}
 	src := Source(c)
 	res := map[string]obs{}
 	has := map[string]bool{}
@@ -294,6 +297,20 @@ func plan(g group, thorough bool) []nrun {
 					out = append(out, nrun{N: n, Cfgs: allConfigs, Limit: l})
 				}
 			}
+		}
+		return out
+	}
+	if g.Family == "multiform" && g.Container == "walk" {
+		// N is the length of the left spine: 2N+ frames are live at the
+		// bottom, so these depths take the stack across 32, 64, 128, 256 and
+		// 512 frames (and, thorough, the sizes in between)
+		depths := []int{20, 40, 70, 100, 140, 300}
+		if thorough {
+			depths = []int{5, 10, 14, 20, 30, 40, 50, 70, 100, 140, 200, 300, 420, 600}
+		}
+		var out []nrun
+		for _, d := range depths {
+			out = append(out, nrun{N: d, Cfgs: allConfigs})
 		}
 		return out
 	}
@@ -521,7 +538,7 @@ func (e *explorer) runGroups(groups []group) {
 			e.mu.Lock()
 			_, dup := e.sources[k]
 			e.sources[k] = struct{}{}
-			if (g.Family == "tail" || g.Family == "multiform" || g.Family == "chain") && c.N >= 10 && c.Err != "first" && pr.fits {
+			if (g.Family == "tail" || g.Family == "multiform" || g.Family == "chain") && g.Container != "walk" && c.N >= 10 && c.Err != "first" && pr.fits {
 				if pr.heightOff > pr.heightOn {
 					e.collapsed++
 				} else {
@@ -688,6 +705,35 @@ func makeChainGroups(thorough bool) []group {
 	return gs
 }
 
+// makeWalkGroups: the stack-growth sub-family of multiform.  quick: 4 shapes
+// for the non-last form's call x {self, mutual}, defun, plus the labels
+// variant of the direct shape; thorough: every shape of depth <= 1 x {self,
+// mutual} x {defun, labels}.
+func makeWalkGroups(thorough bool) []group {
+	var gs []group
+	add := func(shape []string, topo int, def string) {
+		gs = append(gs, group{Case{Family: "multiform", Container: "walk", Layout: "SLM", Main: "direct", Def: def,
+			Shape: shape, Topo: topo, Args: "acc", Err: "none"}})
+	}
+	if !thorough {
+		for _, sh := range [][]string{{}, {"if-then"}, {"let-body"}, {"funcall"}} {
+			for topo := 1; topo <= 2; topo++ {
+				add(sh, topo, "")
+			}
+		}
+		add([]string{}, 1, "labels")
+		add([]string{}, 2, "labels")
+		return gs
+	}
+	for _, sh := range tailShapes(1) {
+		for topo := 1; topo <= 2; topo++ {
+			add(sh, topo, "")
+			add(sh, topo, "labels")
+		}
+	}
+	return gs
+}
+
 // makeSeqGroups: loop shapes x starter x function pattern x K.
 func makeSeqGroups(shapes [][]string) []group {
 	var gs []group
@@ -784,6 +830,9 @@ func run(r *core.Run) {
 	r.Bound("sequence_dimensions", map[string]any{"loop_shape_depth": mfDepth, "starters": starters, "function_patterns": funcPatterns,
 		"loops_K": []int{2, 3, 5}, "turns_per_loop_n": "quick 3,10; thorough 2,3,10,30",
 		"Stack.MaxTailIterations": "every value of {n, n+1, 2n-1, 2n, K*n-1, K*n}", "argument_style": "acc"})
+	r.Bound("multiform_stack_growth", map[string]any{"program": "in-order walk of a thin tree: left child by plain recursion from a non-last body form, right children by tail calls (self, or through a second function and back), walked twice in one runtime",
+		"left_spine_depths":           "quick 20,40,70,100,140,300; thorough 5,10,14,20,30,40,50,70,100,140,200,300,420,600 (2 frames and more per level)",
+		"shapes_of_the_non_last_call": "quick direct, if-then, let-body, funcall; thorough every shape of depth<=1", "runtime": "always fresh (fresh call stack)"})
 	r.Bound("chain_length_dimensions", map[string]any{
 		"nest":  "tail call under d nested terminal positions, every d in 1..40 (quick: if-then, let-body, funcall, the 15 positions in rotation; self recursion) / 1..80 (thorough: each of the 15 positions and the rotation; self and 2-cycle)",
 		"ring":  "k mutually tail-recursive functions, every k in 1..16 (quick) / 1..32 (thorough), bodies wrapped in the first w=0..4 of {if-then let-body cond-else progn-last} and {funcall let*-body apply or-last}",
@@ -804,6 +853,7 @@ func run(r *core.Run) {
 	r.Assume("sequence: K separate loops of n turns run on ONE runtime with Stack.MaxTailIterations >= n, and no single loop reaches the limit (measured: every loop is also run alone in a fresh runtime with elimination on and the same limit; a case where a lone loop already fails is outside the precondition, e.g. funcall>funcall 2-cycles where the funcall frame is itself a loop frame and counts 3 turns for n=2); with elimination off the limit is never consulted, hence any limit error with elimination on is a transparency violation")
 	r.Assume("chain: peak stack height and base-case depth are equal for n and 10n turns, the 10n run completes with elimination on under MaxHeightPhysical = (peak of the n run)+8, and on/off agree; the class names the kind of chain, not its length: the three smallest failing lengths are reported")
 	r.Assume("closure: every turn builds a closure over one of the function's own parameters (counter, datum, &rest list) that is used after later turns rebound the parameters (collected and invoked after the loop, continuation-passing, returned, or invoked by the next turn); runs under MaxTailIterations=5000, far above the <=100 turns, only so that a runaway continuation in a broken evaluator stops quickly")
+	r.Assume("multiform/walk: every case runs in a fresh runtime so that the call stack's frame slice grows during the first walk; the visit order (g-log) of both walks is part of the value")
 	r.Assume("one runtime per worker and configuration is reused for up to 256 programs (they only redefine globals); it is dropped when a run leaves frames behind, is cancelled or panics; every disagreement is re-confirmed 5x in fresh runtimes")
 	r.Assume("violations are reported minimal-shape-first: a shape that contains an already reported shape (same relation) as a subsequence is counted under subsumed_violations, not reported")
 
@@ -834,11 +884,23 @@ func run(r *core.Run) {
 		{"transparency-only", 1}, {"transparency-only", 2},
 		{"sequence", 0}, {"sequence", 1}, {"sequence", 2},
 		{"multiform", 0}, {"multiform", 1}, {"multiform", 2},
+		{"walk", 0},
 		{"chain", 0},
 		{"closure", 0}, {"closure", 1}, {"closure", 2},
 		{"blocked", 3}, {"tail", 3},
 	}
 	for _, st := range steps {
+		if st.family == "walk" {
+			if r.Expired() {
+				r.Cap("soft deadline before the stack-growth walks")
+				continue
+			}
+			t0 := time.Now()
+			gs := makeWalkGroups(r.Thorough())
+			e.runGroups(gs)
+			fmt.Fprintf(os.Stderr, "c02: multiform stack-growth walks: %d groups, %.1fs\n", len(gs), time.Since(t0).Seconds())
+			continue
+		}
 		if st.family == "chain" {
 			if r.Expired() {
 				r.Cap("soft deadline before the chain-length family")
